@@ -68,6 +68,10 @@ func smartDateParseWrapper(format string, tz *time.Location, dateStage KeyBuilde
 		var atomicFormat atomic.Value
 		atomicFormat.Store("")
 
+		// What the date stage yields without any match data (this is what static analysis probes with)
+		// A format detected from it isn't a seen date, and must not be remembered
+		probeTime, _ := EvalStaticStage(dateStage)
+
 		return KeyBuilderStage(func(context KeyBuilderContext) string {
 			strTime := dateStage(context)
 			if strTime == "" { // This is important for future optimization efforts (so an empty string won't be remembered as a valid format)
@@ -83,7 +87,9 @@ func smartDateParseWrapper(format string, tz *time.Location, dateStage KeyBuilde
 				if err != nil {
 					return ErrorParsing
 				}
-				atomicFormat.Store(liveFormat)
+				if strTime != probeTime {
+					atomicFormat.Store(liveFormat)
+				}
 			}
 
 			val, err := time.ParseInLocation(liveFormat, strTime, tz)
